@@ -293,9 +293,12 @@ def nest(rng, ch, depth):
     v = ch
     path = []
     for _ in range(depth):
-        how = rng.choice(("list", "tuple", "dict"))
+        how = rng.choice(("list", "tuple", "dict", "padded"))
         path.append(how)
-        if how == "list":
+        if how == "padded":
+            # a carrier item that is big on the wire
+            v = (bytes([depth]) * rng.choice((70000, 300000)), v)
+        elif how == "list":
             v = [1, v, "x"]
         elif how == "tuple":
             v = ("t", v)
@@ -306,7 +309,7 @@ def nest(rng, ch, depth):
 
 def unnest(v, path):
     for how in reversed(path):
-        if how == "list":
+        if how in ("list", "padded"):
             v = v[1]
         elif how == "tuple":
             v = v[1]
@@ -361,18 +364,25 @@ def run_transfer(spec):
                 got = unnest(box[0], path)
                 out.close()
                 a, b = c, got
-            elif direction == "l2r":
-                c = lab.gw.newchannel()
-                v, path = nest(rng, c, depth)
-                lab.control_local.send(v)
-                got = unnest(lab.control_remote.receive(10), path)
-                a, b = c, got
             else:
-                c = lab.remote_gateway.newchannel()
+                c = (lab.gw if direction == "l2r" else lab.remote_gateway).newchannel()
                 v, path = nest(rng, c, depth)
-                lab.control_remote.send(v)
-                got = unnest(lab.control_local.receive(10), path)
+                (lab.control_local if direction == "l2r" else lab.control_remote).send(v)
+                early = rng.random() < 0.5
+                if early:
+                    # the sender uses the travelling channel at once, before the other side has looked at the carrier item
+                    c.send(("early", i))
+                    time.sleep(0.02)
+                got = unnest((lab.control_remote if direction == "l2r" else lab.control_local).receive(10), path)
                 a, b = c, got
+                if early and type(got) is gb.Channel:
+                    res.count("transfers_used_before_the_carrier_was_received")
+                    try:
+                        first = got.receive(10)
+                    except BaseException as e:  # noqa
+                        first = f"{type(e).__name__}: {e}"
+                    if first != ("early", i):
+                        res.violation("item-sent-on-travelling-channel-before-arrival-lost", f"{label} path={path}: first item on the arrived channel is {short(first, 100)}")
             res.count("transfers")
             res.case(core.h64("transfer", direction, depth, tuple(path), i))
             if type(got) is not gb.Channel:
